@@ -20,20 +20,6 @@ import (
 	"github.com/rpcpool/yellowstone-faithful/gsfa/linkedlog"
 )
 
-func c06SymEntry(bits uint) *linkedlog.OffsetAndSizeAndSlot {
-	o, s, l, f := verifU64("offset"), verifU64("size"), verifU64("slot"), verifU8("flags")
-	verifAssume(o < 1<<bits && s < 1<<bits && l < 1<<bits)
-	return &linkedlog.OffsetAndSizeAndSlot{Offset: o, Size: s, Slot: l, Flags: linkedlog.Bitmap(f)}
-}
-
-func c06Reversed(in []linkedlog.OffsetAndSizeAndSlot) []linkedlog.OffsetAndSizeAndSlot {
-	out := make([]linkedlog.OffsetAndSizeAndSlot, len(in))
-	for i := range in {
-		out[len(in)-1-i] = in[i]
-	}
-	return out
-}
-
 func VerifC06Chain() {
 	maxSteps := verifParam("steps", 3)
 	bits := uint(verifParam("bits", 7)) // 7: every field is one uvarint byte (widths are C06.codec/C06.record)
